@@ -7,7 +7,7 @@ THEOREMS = {
         "Dawgs.C03.Props.wellScoped_sound", "Dawgs.C03.Props.wellScoped_no_error", "Dawgs.C03.Props.wellScoped_no_unbound",
         "Dawgs.C03.Props.applyShape_match", "Dawgs.C03.Props.cte_columns_match",
         "Dawgs.C03.Props.params_closed", "Dawgs.C03.Props.missing_param_rejected", "Dawgs.C03.Props.c03_partial",
-        "Dawgs.C03.Props.c03_partial_S2", "Dawgs.C03.Props.tr_wellScoped", "Dawgs.C03.Props.c03_partial_S3", "Dawgs.C03.Props.c03_partial_S4", "Dawgs.C03.Props.c03_partial_S5",
+        "Dawgs.C03.Props.c03_partial_S2", "Dawgs.C03.Props.tr_wellScoped", "Dawgs.C03.Props.c03_partial_S3", "Dawgs.C03.Props.c03_partial_S4", "Dawgs.C03.Props.c03_partial_S5", "Dawgs.C03.Props.c03_partial_S6",
     ],
 }
 
@@ -223,7 +223,7 @@ SPEC = {
     "regen": do_regen,
     "lean_modules": ["Dawgs.Props.C03"],
     "theorems_by_module": THEOREMS,
-    "gate_modules": ["Dawgs.Model.Sql", "Dawgs.Model.C01", "Dawgs.Model.C01S2", "Dawgs.Model.C01Chain", "Dawgs.Model.C01Count", "Dawgs.Model.C03", "Dawgs.Model.C03Bind", "Dawgs.Model.SqlSchema", "Dawgs.Proofs.C03", "Dawgs.Proofs.C03Frag", "Dawgs.Props.C03"],
+    "gate_modules": ["Dawgs.Model.Sql", "Dawgs.Model.C01", "Dawgs.Model.C01S2", "Dawgs.Model.C01Chain", "Dawgs.Model.C01Count", "Dawgs.Model.C01Limit", "Dawgs.Model.C03", "Dawgs.Model.C03Bind", "Dawgs.Model.SqlSchema", "Dawgs.Proofs.C03", "Dawgs.Proofs.C03Frag", "Dawgs.Props.C03"],
     "suites": [{"name": "c03", "model_suite": "c03", "model_input": model_input, "impl_view": impl_view, "model_view": model_view,
                 "judge": judge, "keep_prefix": 1, "thorough_seeds": 1}],
     "nontrivial": nontrivial,
@@ -237,7 +237,7 @@ SPEC = {
             "plus FOCUSED FAMILIES (harness/focused.go): minimal queries built systematically, one scoping shape each — a binding read only from the inline property map / WHERE / "
             "pattern predicate / endpoint of a later MATCH; renamings inside one WITH (fresh, identity, shadowing, swaps, rotations); variable-length step + fixed hops with every subset of "
             "the suffix nodes already bound; aggregate-only projections with LIMIT; a NAMED PATH bound by a MATCH whose own WHERE holds a pattern predicate (incl. the patterns the "
-            "optimiser reverses), the path / nodes(p) / relationships(p) / length(p) projected afterwards, also through WITH. FINDING KEY = C03:<symptom>:<sql site>:<query shape>: symptom from the binder verdict, sql site from the "
+            "optimiser reverses), the path / nodes(p) / relationships(p) / length(p) projected afterwards, also through WITH; ORDER BY on a RETURN / WITH alias declared before and AFTER un-aliased non-variable items (property, id(), aggregate) — the sort item must be an output column or a FROM column wherever the alias stands in the list (family order-alias); `x IN nodes(p)` / `r IN relationships(p)` on a bound path (fixed hop, chain, expansion) in a WHERE (staged into a lateral sub-select) and as a projection item (not staged), directly and through WITH (family path-membership). FINDING KEY = C03:<symptom>:<sql site>:<query shape>: symptom from the binder verdict, sql site from the "
             "position of the dangling reference in the SQL text, query shape = the first ENABLING feature set (lib/cyshape.py, table SHAPES in lib/props/c03.py) the Cypher text satisfies for "
             "that symptom:site; a query that shows the symptom at that site without any registered enabling shape is keyed `unrecognised-query-shape`, which is never registered: VIOLATION. The registered pattern-predicate shapes are about a predicate reading a binding of an EARLIER clause: a "
             "single-MATCH query (no WITH / UNWIND / earlier clause) that binds a path variable and holds a pattern predicate over its own bindings (feature "
@@ -267,9 +267,10 @@ MANIFEST = {
             "c03_partial : C03_for C01.tr — PROVED for the model translator of C01 (stage S1, all queries, all kind maps): its statements pass the binder, hence resolve, under the schema with "
             "no parameters. c03_partial_S2 : forall flipOf prune, C03_for (C01.tr2F flipOf prune) and tr_wellScoped — the same for S1 plus stage S2b (MATCH (a)-[r]->(b) [WHERE single-variable conjuncts] RETURN items "
             "over a, r, b; both join orders, the frame pruned to the read bindings or complete, every combination of kind constraints, every list of conjuncts: Proofs/C03Frag.lean bPredAt — a lowered S1 predicate binds wherever its alias "
-            "shows id / properties / kind column); c03_partial_S3 : forall flipOf flipCh prune, C03_for (C01.tr3F flipOf flipCh prune) adds stage S2c, chains of two or three hops (frames s0, s1[, s2] "
-            "with the carried columns and the `!=` guards, final projection over the last frame: ChainB.tr_wellScopedCh); c03_partial_S4 : forall flipOf flipCh fast prune, C03_for (C01.tr4F flipOf flipCh fast prune) adds stage S1c, the two "
+            "shows id / properties / kind column); c03_partial_S3 : forall flipOf flipCh prune, C03_for (C01.tr3F flipOf flipCh prune) adds stage S2c, chains of two or three hops with an optional WHERE of single-variable conjuncts (frames s0, s1[, s2] "
+            "with the carried columns, the lowered conjuncts over the new relationship / node (ChainB.bStep1 / bStep2: they bind because the frame's FROM shows the columns of e_i and n_(i+1)) and the `!=` guards, final projection over the last frame: ChainB.tr_wellScopedCh); c03_partial_S4 : forall flipOf flipCh fast prune, C03_for (C01.tr4F flipOf flipCh fast prune) adds stage S1c, the two "
             "count statements (fast path / node frame, with or without alias: CountB.tr_wellScopedCount); c03_partial_S5 adds stage S2n, count(x) over a hop frame "
-            "(CountHopB.tr_wellScopedCountHop): the statement passes the binder (wellScoped = true) under the schema with the empty parameter list. C03_full (the same for a total translator) is a visible, undischarged Prop.",
+            "(CountHopB.tr_wellScopedCountHop); c03_partial_S6 : forall flipOf flipCh flipN fast prune push, C03_for (C01.tr6F ...) adds stage S2L, the hop statement with a LIMIT literal on the statement and — limit pushdown — "
+            "on the frame s0 (Hop.tr_wellScoped2L: a LIMIT literal binds in every scope): the statement passes the binder (wellScoped = true) under the schema with the empty parameter list. C03_full (the same for a total translator) is a visible, undischarged Prop.",
     "note": "Not a proof about the Go translator: per-output validation. PostgreSQL's scoping rules are a trusted Lean transcription of the documentation (no server in the sandbox).",
 }
